@@ -211,6 +211,7 @@ type Exec struct {
 	resultMode bool
 	// usesHeapRefs: a reference into the read-only linked heap (heapobj) was created for the function under verification
 	usesHeapRefs bool
+	heapIfaces   map[string]IfaceV // interface-valued fields of heap objects read so far, by field function and reference term
 	bigRefSyms []*Term // *big.Int references returned by callees so far (results of contracts)
 	pendingCallee     *ssa.Function // the callee whose contract is being applied (nil: interface method)
 	pendingParamTypes []types.Type // parameter types of the callee whose contract is being applied (set by callFn)
@@ -670,6 +671,26 @@ func (ex *Exec) load(st *State, p Val, site string) Val {
 			}
 			if _, isTP := f.Type().(*types.TypeParam); isTP {
 				return OpaqueV{Typ: f.Type(), Id: t}
+			}
+			if _, isIface := f.Type().Underlying().(*types.Interface); isIface {
+				// an interface-valued field: one symbolic interface value per (field, reference term); reading the same
+				// reference again gives the same value (two syntactically different but equal references give
+				// unrelated values: incomplete, not unsound)
+				key := uf.Name + "|" + pv.Ref.String()
+				if iv, ok := ex.heapIfaces[key]; ok {
+					return iv
+				}
+				if ex.heapIfaces == nil {
+					ex.heapIfaces = map[string]IfaceV{}
+				}
+				nm := sanitizeSym(fmt.Sprintf("hf_%s_%d", uf.Name, len(ex.heapIfaces)))
+				save := ex.Inputs
+				k := ex.declInput(nm+"!kind", IntSort)
+				ex.Inputs = save
+				ex.Assumes = append(ex.Assumes, IGe(k, IntC(0)))
+				iv := IfaceV{Kind: k, Sym: &IfaceSym{Name: nm, Payloads: map[string]Val{}, Ghosts: map[string]*Term{}}}
+				ex.heapIfaces[key] = iv
+				return iv
 			}
 			if ex.Mode == ModeInt {
 				if _, _, isInt := intInfo(f.Type()); isInt {
